@@ -125,7 +125,7 @@ def main(argv=None):
                 gen = open(r.get('file') or os.path.join(os.environ.get('VERIF_BUILD') or os.path.join(VERIF, 'build'), pid, g + '.rs')).read()
             except OSError:
                 gen = ''
-            lost = [l for l in P.get('lemma_names', []) if not re.search(r'proof fn %s\b' % re.escape(l), gen)]
+            lost = [l for l in P.get('lemma_names', []) if not re.search(r'\bfn %s\b' % re.escape(l), gen)]
             if lost and r['status'] == 'ok':
                 undecided.append('lemma(s) missing from group %s: %s' % (g, ', '.join(lost)))
         for lb in mp['labels']:
